@@ -622,6 +622,22 @@ impl Pair {
                 }
                 // RFC 9000 3.2: a RESET_STREAM received after all data (Data Recvd) may be ignored
                 let all_received = self.m.b_fin.map_or(false, |f| self.m.b_contiguous() >= f);
+                // RFC 9000 4.5: the final size is the amount of connection flow-control credit the stream
+                // consumed - once B accepted a RESET_STREAM it must have charged exactly that much (whatever
+                // it ignored while stopping) and, when the reset ended the stream (nothing is left for the
+                // application to read), handed all of it back to the peer; otherwise every reset stream
+                // leaks connection credit until nothing can be sent on any stream
+                if self.on(Focus::C02) {
+                    let fc = &self.b.rx_connection_flow_controller;
+                    let acquired = fc.acquired_window().as_u64();
+                    ensure(acquired == *final_size, "live.conn_credit_not_charged_on_reset", || {
+                        format!("B accepted RESET_STREAM(final size {}) but charged {} bytes of connection credit for the stream", final_size, acquired)
+                    })?;
+                    let remaining = fc.remaining_window().as_u64();
+                    ensure(all_received || remaining == 100_000, "live.conn_credit_leak_on_reset", || {
+                        format!("after RESET_STREAM(final size {}) ended the stream B's connection window still withholds {} bytes (remaining {}, configured 100000)", final_size, 100_000 - remaining.min(100_000), remaining)
+                    })?;
+                }
                 if !all_received {
                     self.m.b_reset_delivered = true;
                 }
